@@ -763,6 +763,41 @@ theorem p1_names_own_field (O : Oracles) (scr : List (Option String)) (name : St
        exact dropPre_isSome_append _ _
      · simp at h)
 
+/-- every phase-one site of ANY document — in particular of a document read through a key-renaming
+    mapper (`docOfMapped m raw fields`, whatever the document keys are) — is raised under the name
+    of a declared FIELD, never under a document key -/
+theorem p1Sites_name_fields (O : Oracles) (scr : List (String × List (Option String)))
+    (doc : List (String × PyVal)) (fields : List (String × FieldDecl)) (s : P1Site)
+    (h : s ∈ p1Sites O scr doc fields) :
+    ∃ nf ∈ fields, s.top = nf.1 ∧ s.kind = .named ∧ s.namesOwnField = true := by
+  simp only [p1Sites, List.mem_filterMap] at h
+  obtain ⟨nf, hnf, hs⟩ := h
+  refine ⟨nf, hnf, ?_⟩
+  cases hl : lookup nf.1 doc with
+  | none => simp [hl] at hs
+  | some v =>
+    simp only [hl] at hs
+    split at hs
+    · simp at hs
+    · have := p1_names_own_field O _ nf.1 nf.2 v s hs
+      exact ⟨this.2.1, this.1, this.2.2⟩
+
+theorem mapped_sites_name_fields (O : Oracles) (scr : List (String × List (Option String)))
+    (m : List (String × String)) (raw : List (String × PyVal))
+    (fields : List (String × FieldDecl)) (s : P1Site)
+    (h : s ∈ p1Sites O scr (docOfMapped m raw fields) fields) :
+    ∃ nf ∈ fields, s.top = nf.1 ∧ s.namesOwnField = true := by
+  obtain ⟨nf, hnf, h1, _, h3⟩ := p1Sites_name_fields O scr _ fields s h
+  exact ⟨nf, hnf, h1, h3⟩
+
+/-- `tags` read under the document key `labels`: the bad element is reported as `tags_1` -/
+theorem mapped_example :
+    let fields : List (String × FieldDecl) := [("first_tags", .seqOf .list (.integer {}) {})]
+    let raw : List (String × PyVal) := [("labels", .list [.int 1, .str "x"])]
+    p1Sites exOracles [] (docOfMapped [("first_tags", "labels")] raw fields) fields =
+      [⟨"first_tags", .named, some "first_tags_1".toList, .valueErr⟩] := by
+  decide
+
 /-- the former findings `no-path:unnamed-inner-field:deser-collection` and
     `wrong-field:stale-inner-name:deser-map` (fixed by /repo 23519e1): whatever scratch name the
     shared inner Field instance carries (`Pct = Integer(maximum=100)` in `m1: Map[String, Pct]` and
